@@ -262,6 +262,18 @@ impl AuthenticationBuiltin {
       .ok_or_else(|| create_security_error_and_log!("Remote participant info not found"))
   }
 
+  // Puts back a handshake state that was moved out for processing a message
+  // which was then rejected: such a message must not disturb the handshake.
+  fn restore_handshake_state(
+    &mut self,
+    identity_handle: &IdentityHandle,
+    state: BuiltinHandshakeState,
+  ) {
+    if let Some(remote_info) = self.remote_participant_infos.get_mut(identity_handle) {
+      remote_info.handshake.state = state;
+    }
+  }
+
   fn handshake_handle_to_identity_handle(
     &self,
     hs_handle: &HandshakeHandle,
